@@ -115,10 +115,17 @@ def _model(data, t):
     syms = [symtab.get_symbol(i) for i in range(n)]
     names = [s.name for s in syms]
     cs = [canon(s) for s in syms]
+    truth = (t.get('desc') or {}).get('truth')
+    enum_ok = True
+    if truth is not None:
+        # synthetic image: the names the writer encoded are the model; the library's own enumeration is judged against them
+        tn = truth.get('names') or [x[0] for x in truth.get('symbols', [])]
+        enum_ok = names == tn
+        names = list(tn)
     raw = elfraw.Raw(data)
     rt = (elfraw.RawSysvHash if t['kind'] == 'sysv' else elfraw.RawGnuHash)(raw, t['off'], t['size'])
     chains = rt.chains()
-    return dict(n=n, names=names, canon=cs, rt=rt, chains=chains, raw=raw)
+    return dict(n=len(names), names=names, canon=cs, rt=rt, chains=chains, raw=raw, enum_ok=enum_ok)
 
 
 def gen_spec(prop, tier, seed, index):
@@ -266,6 +273,9 @@ def execute_spec(spec):
         return dict(spec=spec, violations=[], digest=pdigest('unopenable', str(e)[:80]), nontrivial=False, evaluations=1,
                     sim_time=stream.clock.seq, faults={}, probes={'table_not_openable': 1}, sample=None)
 
+    if not m['enum_ok']:
+        viol('enumeration', 'the symbol table yields the encoded names in index order (synthetic image: what the writer encoded)',
+             'the encoded names', 'different names or count')
     # count clause
     try:
         cnt = tab.get_number_of_symbols()
@@ -317,11 +327,11 @@ def execute_spec(spec):
             if gc is None:
                 viol('present-not-found' + ('|after-' + ek if ek else ''), 'completeness: a hashed symbol of that name exists',
                      dict(name=q, index=findable[0]), None, q)
-            elif gc not in [m['canon'][i] for i in maybe]:
+            elif (gc not in [m['canon'][i] for i in maybe]) if m['enum_ok'] else (gc[1] != q):
                 viol('wrong-symbol', 'the returned symbol bears the requested name and is a table entry',
                      dict(name=q), jsonable(gc, 300), q)
         else:
-            if gc is not None and gc not in [m['canon'][i] for i in maybe]:
+            if gc is not None and ((gc not in [m['canon'][i] for i in maybe]) if m['enum_ok'] else True):
                 viol('absent-found' + ('|after-' + ek if ek else ''), 'soundness: no hashed symbol of that name', None, jsonable(gc, 300), q)
         # name lookup on the table itself (section form only: the lazily built name map)
         if not via_segment and hasattr(symtab, 'get_symbol_by_name') and qi % 3 == 0:
@@ -330,8 +340,8 @@ def execute_spec(spec):
                 lc = None if lst is None else [canon(s) for s in lst]
             except Exception as e:
                 lc = exc_obs(e)
-            exp = [m['canon'][i] for i in idxs] or None
-            if lc != exp:
+            exp = [m['canon'][i] for i in idxs if i < len(m['canon'])] or None
+            if m['enum_ok'] and lc != exp:
                 viol('by-name', 'get_symbol_by_name == [s for s in table if s.name == name]',
                      None if exp is None else len(exp), jsonable(canon(lc), 300), q)
         log.append((q, gc is not None, stream.ops))
